@@ -14,6 +14,12 @@ import (
 )
 
 func main() {
+	for _, a := range os.Args[1:] {
+		if a == "--child-worker" && mc.ChildWorker != nil {
+			mc.ChildWorker()
+			return
+		}
+	}
 	id := flag.String("id", "", "property id")
 	tier := flag.String("tier", "quick", "quick|thorough")
 	seed := flag.Int64("seed", 0, "VERIF_SEED (rotates shard order only)")
